@@ -554,17 +554,13 @@ func elabModLoc(p *Program, m string, env *Env) (locs []ModLoc, err error) {
 		body := m[7 : len(m)-1]
 		i := strings.LastIndex(body, ",")
 		if i < 0 {
-			h := "GH:" + strings.TrimSpace(body)
-			p.registerHeap(h, ArraySort(SInt, SInt))
-			return []ModLoc{{Heap: h}}, nil
+			return []ModLoc{{Heap: ghostFieldHeap(p, strings.TrimSpace(body), false)}}, nil
 		}
 		oe, perr := ParseSpec(body[:i])
 		if perr != nil {
 			return nil, perr
 		}
-		h := "GH:" + strings.TrimSpace(body[i+1:])
-		p.registerHeap(h, ArraySort(SInt, SInt))
-		return []ModLoc{{Heap: h, At: env.elab(oe).T}}, nil
+		return []ModLoc{{Heap: ghostFieldHeap(p, strings.TrimSpace(body[i+1:]), false), At: env.elab(oe).T}}, nil
 	case strings.HasPrefix(m, "global(") && strings.HasSuffix(m, ")"):
 		name := m[7 : len(m)-1]
 		obj := env.pkg.Scope().Lookup(name)
@@ -572,6 +568,24 @@ func elabModLoc(p *Program, m string, env *Env) (locs []ModLoc, err error) {
 			return nil, fmt.Errorf("no global %s", name)
 		}
 		return []ModLoc{{Heap: "G:" + obj.Pkg().Path() + "." + obj.Name()}}, nil
+	case (strings.HasPrefix(m, "gf(") || strings.HasPrefix(m, "gfa(")) && strings.HasSuffix(m, ")"):
+		// gf(name, x) / gfa(name, x): ghost field `name` of object x
+		isArr := strings.HasPrefix(m, "gfa(")
+		body := m[strings.Index(m, "(")+1 : len(m)-1]
+		i := strings.Index(body, ";")
+		if i < 0 {
+			i = strings.Index(body, " ")
+		}
+		if i < 0 {
+			// gf(name): that ghost field of every object
+			return []ModLoc{{Heap: ghostFieldHeap(p, strings.TrimSpace(body), isArr)}}, nil
+		}
+		e, perr := ParseSpec(body[i+1:])
+		if perr != nil {
+			return nil, perr
+		}
+		v := env.elab(e)
+		return []ModLoc{{Heap: ghostFieldHeap(p, strings.TrimSpace(body[:i]), isArr), At: v.T}}, nil
 	case strings.HasPrefix(m, "captured(") && strings.HasSuffix(m, ")"):
 		return []ModLoc{{Heap: "FV:" + m[9:len(m)-1]}}, nil
 	case strings.HasSuffix(m, "[*]") || strings.HasSuffix(m, "[+]"):
@@ -978,6 +992,21 @@ func (fc *FuncCtx) contractModHeaps(f *ssa.Function, c *Contract) []string {
 		for i, pt := range ptypes {
 			if s := sortOf(pt); s != nil && i < len(names) {
 				env.vars[names[i]] = SVal{T: Var("$m."+names[i], s), Typ: pt}
+			}
+		}
+		if len(f.Params) == 0 && f.Signature != nil {
+			// function without a body (library function under an extern contract): parameters from the signature
+			var pts []types.Type
+			if r := f.Signature.Recv(); r != nil {
+				pts = append(pts, r.Type())
+			}
+			for i := 0; i < f.Signature.Params().Len(); i++ {
+				pts = append(pts, f.Signature.Params().At(i).Type())
+			}
+			for i, pt := range pts {
+				if s := sortOf(pt); s != nil && i < len(names) {
+					env.vars[names[i]] = SVal{T: Var("$m."+names[i], s), Typ: pt}
+				}
 			}
 		}
 	}
